@@ -310,9 +310,13 @@ func (r *Run) finish() int {
 	}
 	wall := time.Since(r.Start).Seconds()
 	if r.Replay == "" {
+		assume := r.assume
+		if assume == nil {
+			assume = []string{}
+		}
 		ev := map[string]any{
 			"property_id": r.Prop, "tier": r.Tier, "seed": r.Seed, "level": r.Level,
-			"coverage": r.cov, "assumptions": r.assume, "wall_s": wall, "violations": len(r.viols),
+			"coverage": r.cov, "assumptions": assume, "wall_s": wall, "violations": len(r.viols),
 		}
 		if len(r.harnessE) > 0 {
 			r.cov["harness_errors"] = r.harnessE
